@@ -300,6 +300,32 @@ namespace c09
             if (w.sstr.size() < before || frame.size() != w.sstr.size() - before || memcmp(frame.data(), w.sstr.data() + before, frame.size()) != 0)
                 kit::violate("C09/writers-disagree@archive", "a writer whose string was cleared before the message wrote %zu bytes, a writer appending to a string of %zu bytes wrote %zu bytes for the same value",
                              frame.size(), before, w.sstr.size() - before);
+            if ((before & 3) == 3)
+            {
+                // a frame that repeats part of itself (an echo of the header, a trailer that copies the first bytes): the bytes to
+                // append lie inside the output string, which may have to grow for them
+                std::string echo;
+                W ew(echo);
+                igris::serialize(ew, v);
+                if (!echo.empty() && echo.size() < 30000)
+                {
+                    std::string expect = echo;
+                    uint16_t n = (uint16_t)echo.size();
+                    expect.append((const char *)&n, 2);
+                    expect.append(std::string(echo));
+                    // (room for the 16-bit count is reserved first: the view must still be valid when the bytes themselves are appended)
+                    echo.shrink_to_fit();
+                    echo.reserve(echo.size() + 2);
+                    ew & igris::buffer(echo.data(), echo.size());
+                    if (echo != expect) kit::violate("C09/self-echo@archive", "appending a length-prefixed copy of the %u bytes written so far (source inside the output string) gave other bytes than the layout rule", (unsigned)n);
+                    size_t k = 1 + before % std::min<size_t>(echo.size(), 40);
+                    expect.append(echo.substr(0, k));
+                    echo.shrink_to_fit();
+                    ew & igris::archive::data<char>(echo.data(), k);
+                    if (echo != expect) kit::violate("C09/self-echo@archive", "appending a raw copy of the first %zu bytes of the output string to itself gave other bytes than the layout rule", k);
+                    kit::probe("frame_echoes_itself");
+                }
+            }
         }
         template <class T> static void get(R &r, T &v) { igris::deserialize(r, v); }
     };
